@@ -45,6 +45,8 @@ type Net struct {
 	Faults map[string]*NetFault // by caller node, consumed by the next request of that node
 	// StripDLEQ removes dleq from responses (legacy mint sub-profile of C08)
 	Panics []string
+	// RespHook rewrites every 200 response body on its way to the client (legacy mint without DLEQ, C08)
+	RespHook func(path string, body []byte) []byte
 	// MeltHandlers: handler task names of POST /v1/melt/bolt11 requests
 	MeltHandlers map[string]bool
 }
@@ -187,6 +189,9 @@ func (n *Net) RoundTrip(req *http.Request) (*http.Response, error) {
 		return nil, errConnReset
 	}
 	respBody := obs.Resp
+	if n.RespHook != nil && rec.Code == 200 {
+		respBody = n.RespHook(uri, respBody)
+	}
 	if fault != nil && fault.CorruptResp != nil && rec.Code == 200 {
 		nb := fault.CorruptResp(uri, respBody)
 		if !bytes.Equal(nb, respBody) {
